@@ -223,6 +223,40 @@ func globalRooted(v ssa.Value) *ssa.Global {
 	return nil
 }
 
+// sharedViaLongLived: v is (an address inside) heap memory reached through a pointer, map or slice held in a
+// field of a long-lived value (keeper, server, hooks, module, app) — shared by every copy of that value.
+func sharedViaLongLived(v ssa.Value, depth int) (string, bool) {
+	if depth > 8 {
+		return "", false
+	}
+	v = addrRoot(v)
+	switch x := v.(type) {
+	case *ssa.UnOp:
+		if x.Op != token.MUL {
+			return "", false
+		}
+		// load of a field: is the holder long-lived?
+		if fa, ok := x.X.(*ssa.FieldAddr); ok {
+			if longLived(fa.X.Type()) {
+				return shortTypeName(fa.X.Type()) + "." + fieldNameT(fa.X.Type(), fa.Field), true
+			}
+			return sharedViaLongLived(fa.X, depth+1)
+		}
+		return sharedViaLongLived(x.X, depth+1)
+	case *ssa.Field:
+		if longLived(x.X.Type()) {
+			return shortTypeName(x.X.Type()) + "." + fieldNameT(x.X.Type(), x.Field), true
+		}
+		return sharedViaLongLived(x.X, depth+1)
+	case *ssa.Lookup:
+		return sharedViaLongLived(x.X, depth+1)
+	}
+	return "", false
+}
+
+// D3Mods is set by the driver so that scanD3 can see through calls that write via their arguments.
+var D3Mods *term.Mods
+
 // scanD3: writes to process-resident state.
 func scanD3(p *prog.Program, f *ssa.Function) (hits []hit) {
 	if f.Name() == "init" || strings.HasPrefix(f.Name(), "init#") {
@@ -253,6 +287,9 @@ func scanD3(p *prog.Program, f *ssa.Function) (hits []hit) {
 		for _, ins := range b.Instrs {
 			switch x := ins.(type) {
 			case *ssa.Store:
+				if fld, ok := sharedViaLongLived(x.Addr, 0); ok {
+					add(x.Pos(), "shared:"+fld, "memory reached through field "+fld+" of a long-lived value is written during execution: every copy of the keeper/server shares it, it survives failed and simulated transactions and is lost on restart")
+				}
 				if g := globalRooted(x.Addr); g != nil && g.Pkg != nil && prog.InModule(g.Pkg.Pkg.Path()) {
 					add(x.Pos(), "global:"+gname(g), "package-level variable "+gname(g)+" is written while executing a transaction/block: the value lives in process memory, survives failed and simulated transactions, and is absent after a restart")
 				}
@@ -260,6 +297,9 @@ func scanD3(p *prog.Program, f *ssa.Function) (hits []hit) {
 					add(x.Pos(), "recvfield:"+p.Name(f), "field of long-lived receiver "+recv.Type().String()+" written during execution")
 				}
 			case *ssa.MapUpdate:
+				if fld, ok := sharedViaLongLived(x.Map, 0); ok {
+					add(x.Pos(), "shared:"+fld, "a map reached through field "+fld+" of a long-lived value is updated during execution (process-resident cache)")
+				}
 				if g := globalRooted(x.Map); g != nil && g.Pkg != nil && prog.InModule(g.Pkg.Pkg.Path()) {
 					add(x.Pos(), "global:"+gname(g), "package-level map "+gname(g)+" updated during execution")
 				}
@@ -270,6 +310,16 @@ func scanD3(p *prog.Program, f *ssa.Function) (hits []hit) {
 				}
 			case ssa.CallInstruction:
 				cc := x.Common()
+				// a callee that writes through an argument which points into memory shared via a long-lived value
+				if D3Mods != nil {
+					for _, a := range cc.Args {
+						if fld, ok := sharedViaLongLived(a, 0); ok && D3Mods.CallWrites(x, a) {
+							if nm, callees := term.CalleeName(p, cc); len(callees) > 0 {
+								add(x.Pos(), "shared:"+fld, "memory reached through field "+fld+" of a long-lived value is passed to "+nm+", which writes through it")
+							}
+						}
+					}
+				}
 				if cc.IsInvoke() || len(cc.Args) == 0 || cc.Signature().Recv() == nil {
 					continue
 				}
